@@ -61,9 +61,10 @@ def route_distinguisher(tokeniser: Any) -> RouteDistinguisher:
     data = tokeniser()
 
     separator = data.find(':')
-    if separator > 0:
-        prefix = data[:separator]
-        suffix = int(data[separator + 1 :])
+    if separator <= 0:
+        raise ValueError(f'invalid route-distinguisher {data}\n  Format: <asn>:<number> or <ipv4>:<number>')
+    prefix = data[:separator]
+    suffix = int(data[separator + 1 :])
 
     if suffix < 0:
         raise ValueError(f'invalid route-distinguisher {data}')
